@@ -729,6 +729,11 @@ def run_check(chk: Check) -> int:
         cov["coqchk"] = chk_info
     cov.update(chk.stats)
     cov.update(chk.extra_coverage())
+    # the schema reserves coverage.exhaustive for a boolean ("the run enumerated a finite space
+    # completely"); a check that describes the exhaustively enumerated PART of its input space does so
+    # under exhaustive_block (the run as a whole also contains random streams, so no check claims true)
+    if "exhaustive" in cov and not isinstance(cov["exhaustive"], bool):
+        cov["exhaustive_block"] = cov.pop("exhaustive")
     ev = {
         "property_id": pid, "tier": chk.tier, "seed": chk.seed, "level": chk.level,
         "coverage": cov, "assumptions": chk.assumptions, "wall_s": round(wall, 2),
